@@ -42,7 +42,8 @@ def encode_world(w):
         out.append(frame("a", a))
     for k in sorted(w.get("env", {})):
         out.append(frame("e", k + "=" + w["env"][k]))
-    out.append(frame("t", ("1" if w["tty"][0] else "0") + ("1" if w["tty"][1] else "0")))
+    fk = w.get("fdkind", "pp")      # what a non-terminal stdin / stdout is: p pipe, f regular file, c character device, s socket
+    out.append(frame("t", ("1" if w["tty"][0] else "0") + ("1" if w["tty"][1] else "0") + fk[:2]))
     si = w.get("stdin") or {}
     out.append(frame("i", b("%d %s\n" % (si.get("end_errno", 0), ",".join(str(c) for c in si.get("chunks", [])))) + b(si.get("data", ""))))
     for f in w.get("files", []):
